@@ -37,6 +37,44 @@ def rename_formal(q, pi, old, new):
     return QG.flatten(v)
 
 
+def targeted_search(run, proj, d, q, stats):
+    """The model and the implementation expand a call of this query differently. That is not yet a
+    violation: look for a context in which the difference changes the *results* (oracle: the generator's
+    own inlining). Every declared predicate is called plainly, negated, and as an operand of && and ||."""
+    rng = run.rng
+    for p in q.preds:
+        args = []
+        for t, _ in p.params:
+            al = [a for k, a in q.from_items if k == t]
+            if not al:
+                break
+            args.append(al[0])
+        else:
+            call = ("call", p.name, tuple(args))
+            k, a = q.from_items[0]
+            others = [QG.accessor_atom(rng, a, k, proj.values) for _ in range(3)]
+            ctxs = [call, QG.mk("not", call), QG.mk("and", QG.mk("not", call), others[0]), QG.mk("or", QG.mk("not", call), others[1]),
+                    QG.mk("and", call, others[0]), QG.mk("or", others[1], call), QG.mk("not", QG.mk("and", call, others[2])),
+                    QG.mk("and", others[0], QG.mk("not", call)), QG.mk("not", QG.mk("not", call))]
+            for c in ctxs:
+                v = QG.clone(q)
+                v.cond = c
+                QG.flatten(v)
+                text = QG.plain(v)
+                res = E.engine_case(proj, d, text, v)
+                stats["targeted"] += 1
+                run.count(("targeted", text))
+                c01.judge(run, "C13", proj, text, v, res, stats, [])
+    # body shapes x call contexts
+    k, a = q.from_items[0]
+    for v in c01.predicate_cases(rng, proj, k, alias=a, limit=200):
+        text = QG.plain(v)
+        res = E.engine_case(proj, d, text, v)
+        stats["targeted"] += 1
+        run.count(("targeted-shape", text))
+        c01.judge(run, "C13", proj, text, v, res, stats, [])
+
+
 def run(run):
     C.build_driver()
     h, d = C.Harness(), C.Driver()
@@ -50,8 +88,14 @@ def run(run):
             proj = E.small_project(rng, h, nfiles=2)
             try:
                 kinds = [k for k in QG.KINDS_DEFAULT if proj.by_kind.get(k)]
+                for v in c01.predicate_cases(rng, proj, rng.choice(kinds), alias=rng.choice(["x", "md", "m2"]), limit=(100 if run.tier == "quick" else None)):
+                    text = QG.plain(v)
+                    res = E.engine_case(proj, d, text, v)
+                    run.count(("pred-shape", text))
+                    c01.judge(run, "C13", proj, text, v, res, stats, mism)
                 for i in range(nq // nproj):
-                    q = QG.random_query(rng, kinds=kinds, values=proj.values, depth=2, n_preds=rng.choice([1, 1, 2, 3]), where=True)
+                    q = QG.random_query(rng, kinds=kinds, values=proj.values, depth=2, n_preds=rng.choice([1, 1, 2, 3]), where=True,
+                                        n_entities=rng.choice([1, 2, 2]))
                     text = GQ.layout(q.lexemes, q.kinds, rng, aggressive=(i % 2 == 0))
                     base = E.engine_case(proj, d, text, q)
                     run.count(("base", tuple(q.lexemes)))
@@ -61,6 +105,8 @@ def run(run):
                     if rp.get("outcome") == "ok" and base.get("model_outcome") == "ok":
                         if rp["expression"] != base["info"].get("expanded"):
                             mism.append(dict(query=text, real_expansion=rp["expression"], model_expansion=base["info"].get("expanded")))
+                            if len(mism) <= 6:
+                                targeted_search(run, proj, d, q, stats)
                     elif rp.get("outcome") == "panic":
                         run.violation("C13:expansion-panic", "ReplacePredicateVariables panicked on %r" % text, dict(query=text, panic=rp.get("panic")))
                     if base["real"] is None:
@@ -74,14 +120,16 @@ def run(run):
                         v = QG.clone(q)
                         v.cond = E.inline_calls(q.cond, q.preds)
                         variants.append(("inlined", QG.flatten(v)))
-                    used = {a for _, a in q.from_items} | {n for p in q.preds for _, n in p.params} | {p.name for p in q.preds} | set(kinds)
+                    used = {a for _, a in q.from_items} | {p.name for p in q.preds} | set(kinds)
+                    formals = [n for p in q.preds for _, n in p.params]
                     for _, a in q.from_items:
-                        cand = [n for n in names if n not in used and n not in QG.RESERVED]
+                        # new alias names include the names of predicate formals (any position)
+                        cand = [n for n in names + formals if n not in used and n not in QG.RESERVED]
                         if cand:
                             variants.append(("alias-renamed", rename_alias(q, a, rng.choice(cand))))
                     for pj, p in enumerate(q.preds):
                         for _, n in p.params:
-                            cand = [x for x in names if x not in {m for _, m in p.params} and x not in QG.RESERVED and x not in kinds and x != p.name]
+                            cand = [x for x in names + [a for _, a in q.from_items] if x not in {m for _, m in p.params} and x not in QG.RESERVED and x not in kinds and x != p.name]
                             if cand:
                                 variants.append(("formal-renamed", rename_formal(q, pj, n, rng.choice(cand))))
                     v = QG.clone(q)
